@@ -41,4 +41,5 @@ def run(tier):
         insts.append(inst)
     return c12.run_kernel_check("C13", tier, ["trsbox_geometry", "ctrsbox_pgd", "ctrsbox_sfista", "ctrsbox_geometry"], insts, reps=3 if tier == "quick" else 10,
                                 sample_counts={"trsbox_geometry_hi": 300 if tier == "quick" else 5000, "ctrsbox_pgd": 25 if tier == "quick" else 300,
-                                               "ctrsbox_sfista": 10 if tier == "quick" else 120, "ctrsbox_geometry": 25 if tier == "quick" else 300})
+                                               "ctrsbox_sfista": 10 if tier == "quick" else 120, "ctrsbox_geometry": 25 if tier == "quick" else 300,
+                                               "sfista_machine_runs": 8 if tier == "quick" else 60})
